@@ -3,7 +3,10 @@
 # /repo and /verif (nothing is applied to /repo itself). Writes /verif/seeded/RESULTS.tsv.
 set -u
 W=${1:-/tmp/seedrun}
-rm -rf $W; mkdir -p $W
+rm -rf $W; mkdir -p $W/base_repo $W/base_verif
+# snapshots of the committed states, so that concurrent edits do not disturb the sweep
+git -C /repo archive HEAD | tar -x -C $W/base_repo
+git -C /verif archive HEAD | tar -x -C $W/base_verif
 props=$(python3 -c "import json;print(' '.join(c['property_id'] for c in json.load(open('/verif/MANIFEST.json'))['checks']))")
 out=/verif/seeded/RESULTS.tsv
 : > $out.tmp
@@ -11,8 +14,8 @@ for d in /verif/seeded/*/; do
   id=$(basename $d)
   [ -f $d/patch.diff ] || continue
   rm -rf $W/repo $W/verif
-  rsync -a --exclude .git /repo/ $W/repo/
-  rsync -a --exclude .git --exclude evidence --exclude replays --exclude seeded /verif/ $W/verif/
+  rsync -a $W/base_repo/ $W/repo/
+  rsync -a --exclude evidence --exclude replays --exclude seeded $W/base_verif/ $W/verif/
   if ! (cd $W/repo && patch -p1 -s --no-backup-if-mismatch < $d/patch.diff >/dev/null 2>&1); then echo -e "$id\tPATCH-DOES-NOT-APPLY" >> $out.tmp; continue; fi
   caught=""
   for p in $props; do
